@@ -303,7 +303,7 @@ func account(c Case) {
 
 func TestRoundTrip(t *testing.T) {
 	o := &tgen.Opts{NoWideIDs: evid.KnownActive(classWideIDs)}
-	n := 12000
+	n := 10000
 	if evid.Thorough() {
 		o.MaxDepth = 4
 	}
